@@ -2,10 +2,18 @@
 
 PROPS = {
     "C04": {
-        "level_text": "Proof that constraint satisfaction, point feasibility and the listing of feasible recorded points follow the property's definitions.",
-        "level_note": "see evidence",
+        "level_text": "Proof, for every database (any number of points, missing values), tolerance and constraint list, that constraint satisfaction and "
+                      "point feasibility follow the property's definitions, that feasible_points lists exactly the feasible recorded points in order "
+                      "(recursive counting function with induction lemmas), that the least-infeasible selection returns a recorded point of minimal "
+                      "violation measure with its recorded outputs, and that `optimum` reports a feasible recorded point, its recorded objective, "
+                      "constraint values and gradients, and no feasible recorded point has a smaller objective; flagged feasible iff some recorded point is.",
+        "level_note": "Trusted: pyvc, numpy model, z3, reals for floats with finite recorded objective values of size 1 (NaN/inf and vector objectives excluded by "
+                      "precondition); the violation measure of check_design_point_is_feasible is an assumed contract. One known finding (feasible points without "
+                      "objective value), see known_findings.json. Not covered: OptimizationResult.from_optimization_problem, Pareto front, last_point.",
         "design_ref": "DESIGN.md §4 C04",
+        "runtime": "contracts.rt_c04",
         "modules": ["contracts.c04_optimum"],
+        "not_covered": ["OptimizationResult.from_optimization_problem", "pareto/utils.py", "multiobjective_optimization_result.py", "last_point", "NaN / infinite recorded values"],
     },
     "C16": {
         "level_text": "Proof, for all dimensions, points, steps and component subsets, that forward finite differences build the perturbation "
@@ -140,26 +148,30 @@ PROPS = {
         ],
     },
     "C09": {
-        "level_text": "Proof (set level only) that Discipline.add_differentiated_inputs/outputs only add names (monotonic, exact set), that _initialize_add_diff_io selects exactly the "
-                      "requested inputs/outputs of every discipline and the right source disciplines, that _apply_diff_ios adds to every "
-                      "discipline exactly its selected continuous names and removes nothing, and that each one-way traversal _bfs_one_way_diff_io covers every edge whose "
-                      "producer is reachable from a source (forward) / whose consumer reaches a source (reverse): the coupling names of the edge are differentiated outputs "
-                      "of its producer and differentiated inputs of its consumer. The end-to-end soundness of pruning (traverse_add_diff_io) is NOT yet proved; see not_covered.",
-        "level_note": "Trusted: as C08 (graph plugin), plus the ghost maps of differentiated names for opaque disciplines. Assumed: contract of networkx.edge_bfs/reverse_view. "
-                      "Numerical exactness of the chain rule is not addressed by these contracts.",
+        "level_text": "Proof, set level only (all graphs, all requested name lists): the selection computed by traverse_add_diff_io covers every edge p->c of the dependency "
+                      "graph lying on a path from a discipline with a requested input to a discipline with a requested output (the coupling names of the edge are differentiated "
+                      "outputs of p and differentiated inputs of c), a discipline with both a requested input and a requested output keeps all of them, and "
+                      "Discipline.add_differentiated_inputs/outputs and _apply_diff_ios only ever add names (monotonic, exact sets). Function by function: _initialize_add_diff_io, "
+                      "_bfs_one_way_diff_io, _merge_diff_ios, _merge_diff_io_special, _apply_diff_ios, traverse_add_diff_io, DependencyGraph.__create_graph. "
+                      "The numerical chain rule itself is not addressed; see not_covered.",
+        "level_note": "Trusted: as C08 (graph plugin pyvc/plug_graph.py), the ghost maps of differentiated names for opaque disciplines. Assumed: contract of "
+                      "networkx.edge_bfs/reverse_view; reach = reflexive-transitive closure (closure axioms). Not proved: requested endpoints of paths of length >= 1 "
+                      "(needs the unfolding of reach), minimality of the selection, the request cache of MDOChain._compute_diff_in_outs, Jacobian accumulation.",
         "design_ref": "DESIGN.md §4 C09",
         "modules": ["contracts.c09_chain_rule"],
         "assumptions": [
             "networkx.edge_bfs(G, source) enumerates exactly the edges whose tail is reachable from the source, each once; reverse_view(G) = same nodes, reversed edges with the same data",
             "reach = reflexive-transitive closure of the edge relation (closure axioms only)",
-            "lset(list) is *defined* as the set of the elements of a list of names; list.extend / list(set) facts on lset added by the plugin are consequences of that definition",
+            "lset(list) is *defined* as the set of the elements of a list of names; the facts on lset added by the plugin for list.extend / list(set) / set(list) are consequences of that definition",
             "an opaque discipline reacts to add_differentiated_inputs/outputs as the contract verified on Discipline.add_differentiated_inputs/outputs states (ghost maps c09_diff_in/out)",
-            "grammar.data_converter.is_continuous(name) is an uninterpreted predicate of (discipline, grammar, name)",
+            "grammar.data_converter.is_continuous(name) is an uninterpreted predicate of (discipline, grammar, name); BaseGrammar.has_names(names) = set(keys).issuperset(names)",
+            "a tuple of lists stored in a dict is stored by value; the lists it holds are tracked as the lists of that slot (aliasing between two mappings sharing a list, as created by _merge_diff_io_special, is not tracked)",
         ],
         "not_covered": [
-            "_merge_diff_ios, _merge_diff_io_special, traverse_add_diff_io (the composition giving: every dependency path from a requested input to a requested output is covered) - not yet under contract",
-            "exactness/minimality of the selection (only coverage is proved for the traversal)",
-            "MDOChain._compute_diff_in_outs request cache, reverse_chain_rule/_compute_jacobian accumulation (numerical chain rule), copy_jacs, _init_jacobian, parallel/additive chains",
+            "for a path of length >= 1: that the requested input x is a differentiated input of the first discipline and the requested output o a differentiated output of the last one (the contracts of _merge_diff_ios give it once a first/last edge is exhibited; exhibiting it needs the unfolding axiom of reach)",
+            "exactness/minimality of the selection (only coverage is proved for the traversals and merges)",
+            "ValueError of traverse_add_diff_io (allowed, not characterised), MDOChain._compute_diff_in_outs request cache",
+            "reverse_chain_rule/_compute_jacobian accumulation (numerical chain rule), copy_jacs, _init_jacobian, parallel/additive chains (DESIGN bounded stand-in not built)",
         ],
     },
     "C15": {
